@@ -1012,4 +1012,147 @@ theorem texinfo_roundtrip (vit : Bool) (fold : Nat → Nat) (tdv : Nat → TexDa
   obtain ⟨rs, h1, h2⟩ := this
   exact ⟨rs, h1, h2, ppre⟩
 
+
+/-! ## overlays -/
+
+theorem intsOf_map (l : List Int) (k : Nat) : intsOf (l.map Val.int ++ List.replicate k (Val.int 0)) = some (l ++ List.replicate k 0) := by
+  induction l with
+  | nil =>
+    induction k with
+    | zero => rfl
+    | succ k ih => simp only [List.map_nil, List.nil_append] at ih ⊢; simp [List.replicate_succ, intsOf, ih]
+  | cons x xs ih => simp [intsOf, ih]
+
+theorem readOverlay_rec (mf : Nat) (o : OverlayV) (i : Nat) (texinfo : List Nat) (hn : o.faces.length ≤ mf) (hmf : mf < 2 ^ 14)
+    (ht : texinfo[i]? = some o.texinfo) :
+    readOverlay mf texinfo (overlayRec mf o i) [.f32 o.fadeMin, .f32 o.fadeMax]
+      [.int o.minCpu, .int o.maxCpu, .int o.minGpu, .int o.maxGpu] = .ok o := by
+  have hlen : (o.faces.map Val.int ++ List.replicate (mf - o.faces.length) (Val.int 0)).length = mf := by simp; omega
+  have h3 : (overlayRec mf o i).take 3 = [.int o.id, .int i, .int ((o.renderOrder <<< 14) ||| o.faces.length)] := by
+    simp [overlayRec]
+  have hmid : ((overlayRec mf o i).drop 3).take mf = o.faces.map Val.int ++ List.replicate (mf - o.faces.length) (Val.int 0) := by
+    simp only [overlayRec, List.append_assoc, List.cons_append, List.nil_append, List.drop_succ_cons, List.drop_zero]
+    rw [← List.append_assoc, List.take_left' hlen]
+  have hend : (overlayRec mf o i).drop (3 + mf) = o.floats.map Val.f32 := by
+    rw [← List.drop_drop]
+    simp only [overlayRec, List.append_assoc, List.cons_append, List.nil_append, List.drop_succ_cons, List.drop_zero]
+    rw [← List.append_assoc, List.drop_left' hlen]
+  obtain ⟨a1, a2⟩ := area_flags o.renderOrder o.faces.length 14 (by omega)
+  have hp : pyIdx texinfo (i : Int) = some o.texinfo := by simp [pyIdx, ht]
+  unfold readOverlay
+  rw [h3, hmid, hend, intsOf_map, f32sOf_map]
+  simp only [Int.toNat_natCast, a1, a2, hp]
+  rw [if_neg (by omega), List.take_left' rfl]
+
+theorem writeOverlays_spec (mf : Nat) (hmf : mf < 2 ^ 14) : ∀ (os : List OverlayV) (f f' : IdFinder) (rs fs ls : List (List Val)),
+    f.Inv idKey → writeOverlays mf f os = .ok (rs, fs, ls, f') →
+    f.list <+: f'.list ∧ ∀ final, f'.list <+: final → readOverlays mf final rs fs ls = .ok os := by
+  intro os
+  induction os with
+  | nil =>
+    intro f f' rs fs ls _ h
+    simp only [writeOverlays, Except.ok.injEq, Prod.mk.injEq] at h
+    obtain ⟨rfl, rfl, rfl, rfl⟩ := h
+    exact ⟨List.prefix_refl _, fun _ _ => rfl⟩
+  | cons o os ih =>
+    intro f f' rs fs ls hf h
+    simp only [writeOverlays] at h
+    by_cases hn : mf < o.faces.length
+    · simp [hn] at h
+    · simp only [hn, if_false] at h
+      cases hr : writeOverlays mf (f.call idKey o.texinfo).2 os with
+      | error e => simp [hr] at h
+      | ok q =>
+        obtain ⟨rs1, fs1, ls1, f1⟩ := q
+        simp only [hr, Except.ok.injEq, Prod.mk.injEq] at h
+        obtain ⟨rfl, rfl, rfl, rfl⟩ := h
+        obtain ⟨i1, p1, r1⟩ := finder_res f hf o.texinfo
+        obtain ⟨p2, rd⟩ := ih _ f1 rs1 fs1 ls1 i1 hr
+        refine ⟨p1.trans p2, ?_⟩
+        intro final hfin
+        simp only [readOverlays, readOverlay_rec mf o _ final (by omega) hmf (r1 final (p2.trans hfin)), rd final hfin]
+
+/-- **Overlays + fades + system levels (index level).** -/
+theorem overlays_roundtrip (mf : Nat) (hmf : mf < 2 ^ 14) (texinfo final : List Nat) (os : List OverlayV)
+    (rs fs ls : List (List Val)) (f' : IdFinder)
+    (h : writeOverlays mf (Finder.mk' idKey texinfo) os = .ok (rs, fs, ls, f')) (hfin : f'.list <+: final) :
+    readOverlays mf final rs fs ls = .ok os ∧ texinfo <+: f'.list := by
+  obtain ⟨p, rd⟩ := writeOverlays_spec mf hmf os _ f' rs fs ls (Finder.mk'_inv idKey texinfo) h
+  exact ⟨rd final hfin, p⟩
+
+/-! ## surfedges + edges -/
+
+def orient (ed : Nat → Nat × Nat) (s : SurfEdgeV) : Nat × Nat :=
+  if s.reversed then ((ed s.edge).2, (ed s.edge).1) else ed s.edge
+
+theorem writeSurfIdx_spec (ed : Nat → Nat × Nat) (dummy : Nat) : ∀ (ss : List SurfEdgeV) (f : IdFinder),
+    f.Inv idKey → f.list[0]? = some dummy → (∀ s ∈ ss, s.edge ≠ dummy) →
+    f.list <+: (writeSurfIdx f ss).2.list ∧
+    ∀ L, (writeSurfIdx f ss).2.list <+: L → readSurfIdx (L.map ed) (writeSurfIdx f ss).1 = .ok (ss.map (orient ed)) := by
+  intro ss
+  induction ss with
+  | nil => intro f _ _ _; exact ⟨List.prefix_refl _, fun _ _ => rfl⟩
+  | cons s ss ih =>
+    intro f hf h0 hne
+    obtain ⟨i1, p1, r1⟩ := finder_res f hf s.edge
+    obtain ⟨p2, rd⟩ := ih _ i1 (getElem?_of_prefix p1 h0) (fun x hx => hne x (by simp [hx]))
+    simp only [writeSurfIdx]
+    refine ⟨p1.trans p2, ?_⟩
+    intro L hL
+    have hi := r1 L (p2.trans hL)
+    have hL0 : L[0]? = some dummy := getElem?_of_prefix ((p1.trans p2).trans hL) h0
+    have hpos : (f.call idKey s.edge).1 ≠ 0 := by
+      intro h
+      rw [h, hL0] at hi
+      exact hne s (by simp) (Option.some.inj hi).symm
+    have hm : (L.map ed)[(f.call idKey s.edge).1]? = some (ed s.edge) := by simp [hi]
+    cases hr : s.reversed with
+    | true =>
+      have hneg : (-(((f.call idKey s.edge).1 : Nat) : Int)) < 0 := by omega
+      simp only [readSurfIdx, hr, if_true, hneg, Int.neg_neg, Int.toNat_natCast, hm, Option.map_some, rd L hL,
+        List.map_cons, orient]
+    | false =>
+      have hnn : ¬ ((((f.call idKey s.edge).1 : Nat) : Int) < 0) := by omega
+      simp only [readSurfIdx, hr, Bool.false_eq_true, if_false, hnn, Int.toNat_natCast, hm, rd L hL, List.map_cons, orient]
+
+theorem writeEdgeRecs_spec (ed : Nat → Nat × Nat) : ∀ (es : List Nat) (f : IdFinder), f.Inv idKey →
+    f.list <+: (writeEdgeRecs ed f es).2.list ∧
+    ∀ V, (writeEdgeRecs ed f es).2.list <+: V → readEdgeRecs V (writeEdgeRecs ed f es).1 = .ok (es.map ed) := by
+  intro es
+  induction es with
+  | nil => intro f _; exact ⟨List.prefix_refl _, fun _ _ => rfl⟩
+  | cons e es ih =>
+    intro f hf
+    obtain ⟨i1, p1, r1⟩ := finder_res f hf (ed e).1
+    obtain ⟨i2, p2, r2⟩ := finder_res _ i1 (ed e).2
+    obtain ⟨p3, rd⟩ := ih _ i2
+    simp only [writeEdgeRecs]
+    refine ⟨(p1.trans p2).trans p3, ?_⟩
+    intro V hV
+    have ha := r1 V ((p2.trans p3).trans hV)
+    have hb := r2 V (p3.trans hV)
+    simp only [readEdgeRecs, pyIdx_nat, ha, hb, rd V hV, List.map_cons]
+
+/-- **Surfedges + edges (index level).** Every surfedge is read back as the ordered pair of vertex
+objects of its edge (swapped for a RevEdge); index 0 is the dummy edge the writer creates, so the
+sign of an index is never lost. -/
+theorem surfedges_roundtrip (isZero : Nat → Bool) (fresh dummy : Nat) (ed : Nat → Nat × Nat) (verts final : List Nat)
+    (ss : List SurfEdgeV) (hne : ∀ s ∈ ss, s.edge ≠ dummy)
+    (hfin : (writeSurfedges isZero fresh dummy ed verts ss).2.2 <+: final) :
+    readSurfedges final (writeSurfedges isZero fresh dummy ed verts ss).1 (writeSurfedges isZero fresh dummy ed verts ss).2.1
+      = .ok (ss.map (orient ed)) ∧ verts <+: (writeSurfedges isZero fresh dummy ed verts ss).2.2 := by
+  obtain ⟨_, rdS⟩ := writeSurfIdx_spec ed dummy ss (Finder.mk' idKey [dummy]) (Finder.mk'_inv _ _) (by simp [Finder.mk']) hne
+  obtain ⟨pV, rdE⟩ := writeEdgeRecs_spec ed (writeSurfIdx (Finder.mk' idKey [dummy]) ss).2.list
+    (Finder.mk' idKey (firstVert isZero fresh verts).2) (Finder.mk'_inv _ _)
+  simp only [writeSurfedges] at hfin ⊢
+  refine ⟨?_, ?_⟩
+  · unfold readSurfedges
+    rw [rdE final hfin]
+    exact rdS _ (List.prefix_refl _)
+  · have hv : verts <+: (firstVert isZero fresh verts).2 := by
+      unfold firstVert; split
+      · exact List.prefix_refl _
+      · exact List.prefix_append _ _
+    exact hv.trans pV
+
 end C11
